@@ -17,6 +17,7 @@ import (
 type writeRec struct {
 	Var string
 	Row string // "" = whole variable
+	Idx string // for two-level heaps: "" = whole row
 }
 
 type FnLog struct {
@@ -40,7 +41,13 @@ func termInvariant(term string, limit int) bool {
 
 func (fc *FnCtx) logWrite(v, row string) {
 	for _, l := range fc.logs() {
-		l.writes = append(l.writes, writeRec{v, row})
+		l.writes = append(l.writes, writeRec{Var: v, Row: row})
+	}
+}
+
+func (fc *FnCtx) logWrite2(v, row, idx string) {
+	for _, l := range fc.logs() {
+		l.writes = append(l.writes, writeRec{Var: v, Row: row, Idx: idx})
 	}
 }
 
@@ -56,13 +63,15 @@ func (fr *Frame) wr1(st *State, heap, row, val string) {
 	if heap == hBV {
 		delete(fc.knownBig, row)
 	}
+	fr.checkLoopWrite(heap, row)
 	fc.logWrite(heap, row)
 	fc.setDef(st, "true", heap, sStore(fc.get(st, heap), row, val))
 }
 
 func (fr *Frame) wr2(st *State, heap, row, idx, val string) {
 	fc := fr.fc
-	fc.logWrite(heap, row)
+	fr.checkLoopWrite(heap, row)
+	fc.logWrite2(heap, row, idx)
 	cur := fc.get(st, heap)
 	fc.noteRead(cur, row)
 	fc.setDef(st, "true", heap, sStore(cur, row, sStore(sSel(cur, row), idx, val)))
@@ -70,6 +79,7 @@ func (fr *Frame) wr2(st *State, heap, row, idx, val string) {
 
 func (fr *Frame) wrRow(st *State, heap, row, rowval string) {
 	fc := fr.fc
+	fr.checkLoopWrite(heap, row)
 	fc.logWrite(heap, row)
 	fc.setDef(st, "true", heap, sStore(fc.get(st, heap), row, rowval))
 }
@@ -80,6 +90,7 @@ func (fr *Frame) wrScalar(st *State, v, val string) {
 }
 
 func (fr *Frame) havocWhole(st *State, v string) {
+	fr.checkLoopWrite(v, "")
 	fr.fc.logWrite(v, "")
 	nv := fr.fc.freshConst(v, fr.fc.sortOfVar(v))
 	fr.fc.set(st, v, nv)
@@ -172,7 +183,7 @@ var subIDs = map[string]int{}
 
 func (fr *Frame) subRef(base string, root types.Type, path string) string {
 	fc := fr.fc
-	key := typeKey(root) + path
+	key := canonType(root) + path
 	id, ok := subIDs[key]
 	if !ok {
 		id = len(subIDs) + 1
@@ -303,7 +314,7 @@ func (fr *Frame) fieldLoc(base string, root types.Type, path string, f *types.Va
 }
 
 func elemFieldHeap(fc *FnCtx, root types.Type, path string, ft types.Type) string {
-	h := "EF:" + typeKey(root) + path
+	h := "EF:" + canonType(root) + path
 	heapValType[h] = ft
 	fc.regVar(h, arr2Sort(sortOf(ft)))
 	return h
@@ -784,6 +795,44 @@ func (fr *Frame) enterLoop(h *ssa.BasicBlock, li *loopInfo, order []*ssa.BasicBl
 		byVar[w.Var] = append(byVar[w.Var], w)
 	}
 	allocPre := fc.get(entrySt, hAlloc)
+	declared := map[string][]string{}
+	if fr.contract != nil && !fr.inlined && len(fr.contract.LoopMod[li.ord]) > 0 {
+		for _, m := range fr.contract.LoopMod[li.ord] {
+			env := fr.specEnv(entrySt, fr.pre, h, nil)
+			// phis take their entry values
+			over := map[ssa.Value]Val{}
+			for _, ins := range h.Instrs {
+				phi, ok := ins.(*ssa.Phi)
+				if !ok {
+					break
+				}
+				for i, pp := range h.Preds {
+					for _, e := range entries {
+						if pp == e {
+							over[phi] = fr.val(phi.Edges[i])
+						}
+					}
+				}
+			}
+			env.over = over
+			for _, t := range fr.modTargets(m, env) {
+				if t.kind == "whole" {
+					continue
+				}
+				if t.kind == "none" {
+					if _, ok := declared[t.heap]; !ok {
+						declared[t.heap] = []string{}
+					}
+					continue
+				}
+				declared[t.heap] = append(declared[t.heap], t.row)
+			}
+		}
+		if fr.loopCtxs == nil {
+			fr.loopCtxs = map[int]*loopCtx{}
+		}
+		fr.loopCtxs[h.Index] = &loopCtx{li: li, allocPre: allocPre, declared: declared}
+	}
 	for _, v := range names {
 		sort := fc.sortOfVar(v)
 		pre := fc.get(entrySt, v)
@@ -800,7 +849,20 @@ func (fr *Frame) enterLoop(h *ssa.BasicBlock, li *loopInfo, order []*ssa.BasicBl
 		whole := false
 		var exc []string
 		seen := map[string]bool{}
-		for _, w := range byVar[v] {
+		partial := map[string][]string{} // row -> element indices written (only those, all loop-invariant)
+		fullRow := map[string]bool{}
+		recs := byVar[v]
+		if rows, ok := declared[v]; ok {
+			// declared loop frame: the declared rows are the exceptions (checked at every write in the loop)
+			recs = nil
+			for _, r := range rows {
+				if !seen[r] {
+					seen[r] = true
+					exc = append(exc, r)
+				}
+			}
+		}
+		for _, w := range recs {
 			if w.Row == "" {
 				whole = true
 				break
@@ -812,6 +874,20 @@ func (fr *Frame) enterLoop(h *ssa.BasicBlock, li *loopInfo, order []*ssa.BasicBl
 				if !seen[w.Row] {
 					seen[w.Row] = true
 					exc = append(exc, w.Row)
+				}
+				if w.Idx != "" && termInvariant(w.Idx, saveCounter) && !fullRow[w.Row] {
+					dup := false
+					for _, x := range partial[w.Row] {
+						if x == w.Idx {
+							dup = true
+						}
+					}
+					if !dup {
+						partial[w.Row] = append(partial[w.Row], w.Idx)
+					}
+				} else {
+					fullRow[w.Row] = true
+					delete(partial, w.Row)
 				}
 				continue
 			}
@@ -828,8 +904,15 @@ func (fr *Frame) enterLoop(h *ssa.BasicBlock, li *loopInfo, order []*ssa.BasicBl
 		if fc.frames == nil {
 			fc.frames = map[string]frameInfo{}
 		}
-		fc.frames[nv] = frameInfo{pre: pre, alloc: allocPre, exc: exc}
+		fc.frames[nv] = frameInfo{pre: pre, alloc: allocPre, exc: exc, partial: partial}
 		fc.facts = append(fc.facts, Fact{Guard: "true", Term: fmt.Sprintf("(forall ((r Int)) (! (=> %s (= (select %s r) (select %s r))) :pattern ((select %s r))))", sAnd(conds...), nv, pre, nv), Class: "frameq"})
+		for row, idxs := range partial {
+			var cs []string
+			for _, ix := range idxs {
+				cs = append(cs, sNot(sEq("j", ix)))
+			}
+			fc.facts = append(fc.facts, Fact{Guard: "true", Term: fmt.Sprintf("(forall ((j Int)) (! (=> %s (= (select (select %s %s) j) (select (select %s %s) j))) :pattern ((select (select %s %s) j))))", sAnd(cs...), nv, row, pre, row, nv, row), Class: "frameq"})
+		}
 	}
 	_ = saveCounter
 	fr.flushClosed(st)
@@ -864,6 +947,7 @@ func (fr *Frame) enterLoop(h *ssa.BasicBlock, li *loopInfo, order []*ssa.BasicBl
 
 func (fr *Frame) exec(b *ssa.BasicBlock, st *State, ins ssa.Instruction) {
 	fc := fr.fc
+	fr.curBlock = b
 	switch x := ins.(type) {
 	case *ssa.DebugRef:
 	case *ssa.Alloc:
@@ -1512,7 +1596,7 @@ func (fr *Frame) execTypeAssert(b *ssa.BasicBlock, st *State, x *ssa.TypeAssert)
 
 func (fr *Frame) mapPresent(st *State, mt types.Type, m, k string) string {
 	fr.regMap(mt)
-	return sAnd(sNot(sEq(m, "0")), sSel(fr.fc.rd(st, heapMapP(mt), m), k))
+	return sAnd(sNot(sEq(m, "0")), fr.fc.rd2(st, heapMapP(mt), m, k))
 }
 
 func (fr *Frame) mapValue(st *State, mt types.Type, m, k string) string {
@@ -1640,4 +1724,40 @@ func (fr *Frame) elemHeaps(el types.Type) []elemHeap {
 	h := heapElem(el)
 	fc.regVar(h, arr2Sort(sortOf(el)))
 	return []elemHeap{{h, sortOf(el), el}}
+}
+
+// loops with a declared `loop N modifies ...` clause: every write inside the loop to a declared heap must hit
+// a declared row or an object allocated inside the loop
+type loopCtx struct {
+	li       *loopInfo
+	allocPre string
+	declared map[string][]string
+	name     string
+}
+
+func (fr *Frame) checkLoopWrite(heap, row string) {
+	if activeLogs[fr.fc] != nil {
+		return // dry run
+	}
+	b := fr.curBlock
+	for f := fr; f != nil && b != nil; b, f = f.parentBlock, f.parent {
+		for _, lc := range f.loopCtxs {
+			if !lc.li.blocks[b.Index] {
+				continue
+			}
+			rows, ok := lc.declared[heap]
+			if !ok {
+				continue
+			}
+			if row == "" {
+				f.fc.oblige("loopframe", fmt.Sprintf("loop%d:%s", lc.li.ord, shortHeap(heap)), fr.reach[fr.curBlock.Index], "false", token.NoPos, f.propsList)
+				continue
+			}
+			alts := []string{sNot(sApp("isold", row, lc.allocPre))}
+			for _, r := range rows {
+				alts = append(alts, sEq(row, r))
+			}
+			f.fc.oblige("loopframe", fmt.Sprintf("loop%d:%s", lc.li.ord, shortHeap(heap)), fr.reach[fr.curBlock.Index], sOr(alts...), token.NoPos, f.propsList)
+		}
+	}
 }
